@@ -11,11 +11,13 @@ import (
 	"fmt"
 	"io"
 	"strings"
+	"syscall"
 	"time"
 
 	"pault.ag/go/debian/changelog"
 	"verifsim/rt"
 	"verifsim/simio"
+	"verifsim/simos"
 )
 
 type clEntry struct {
@@ -268,7 +270,13 @@ func runC17(r *rt.Run, tier string) {
 	faulty := t.Bool(1, 2, "config.faulty")
 	api := "Parse"
 	clBufSize = 0
-	if t.Bool(1, 3, "cl.api") {
+	viaFile := false
+	if k := t.Weighted([]int{8, 4, 2, 1}, "cl.api"); k >= 2 {
+		// the file entry points, on the simulated file system
+		api = []string{"ParseFile", "ParseFileOne"}[k-2]
+		viaFile = true
+		r.Probe("via-file-entry-point")
+	} else if k == 1 {
 		api = "ParseOne"
 		// the caller's buffered reader may be smaller than bufio's default
 		clBufSize = []int{0, 16, 64, 300, 4095}[t.Weighted([]int{3, 1, 1, 1, 1}, "cl.bufsize")]
@@ -352,15 +360,79 @@ func runC17(r *rt.Run, tier string) {
 
 	var got []changelog.ChangelogEntry
 	var err error
+	var fsys *simos.FS
+	if viaFile {
+		// the same document as a file: a truncation is a torn file, an EIO is a
+		// failing open or read call of the parser (position scaled to the calls made)
+		fsys = simos.New(r)
+		onDisk := data
+		if kind == "truncate" {
+			onDisk = data[:pos]
+		}
+		fsys.PutQuiet("/src/pkg/debian/changelog", onDisk)
+		if kind == "eio" {
+			fsys.Subject = "parser"
+			fsys.Plan = map[int]simos.Fault{1 + (pos*(2+len(data)/4096))/L: {Kind: "err", Errno: syscall.EIO}}
+		}
+		simos.Install(fsys)
+		defer simos.Install(nil)
+	}
 	task := r.Solo("parser", func() {
-		if api == "Parse" {
+		switch api {
+		case "Parse":
 			var g changelog.ChangelogEntries
 			g, err = changelog.Parse(rd)
 			got = g
-		} else {
+		case "ParseFile":
+			var g changelog.ChangelogEntries
+			g, err = changelog.ParseFile("/src/pkg/debian/changelog")
+			got = g
+		case "ParseFileOne":
+			var e *changelog.ChangelogEntry
+			e, err = changelog.ParseFileOne("/src/pkg/debian/changelog")
+			if e != nil {
+				got = []changelog.ChangelogEntry{*e}
+			}
+			if e == nil && err == nil {
+				err = fmt.Errorf("ParseFileOne returned (nil, nil)")
+				r.Violate("C17/nil-entry-without-error", api, "ParseFileOne returned neither an entry nor an error")
+			}
+		default:
 			got, err = clParseOneLoop(rd)
 		}
 	})
+	if viaFile {
+		// every file the parser opened is closed again when it returns
+		opens, closes, fired := 0, 0, ""
+		for _, op := range fsys.History {
+			switch {
+			case op.Op == "open" && op.Err == "":
+				opens++
+			case op.Op == "close":
+				closes++
+			}
+			if op.Fault != "" {
+				fired = op.Op
+			}
+		}
+		if opens != closes && task.Panic == nil && !task.Budget {
+			r.Violate("C17/file-left-open", api, "%d successful opens, %d closes when the call returned", opens, closes)
+		}
+		if kind == "eio" {
+			if fired == "open" || fired == "read" {
+				r.Probe("file-call-failed:" + fired)
+			} else {
+				if fired == "close" && err != nil {
+					return // reporting a failed close is not wrong
+				}
+				kind = "eio-not-hit" // the failing call index was never reached (or was the close)
+			}
+		}
+	}
+	if api == "ParseFileOne" {
+		c17One(r, entries, doc, kind, pos, got, err, task)
+		return
+	}
 	if task.Panic != nil {
 		r.Violate("C17/panic", api, "panic: %v\n%s", task.Panic, trimStack(task.PanicStack))
 		return
@@ -443,6 +515,17 @@ func runC17(r *rt.Run, tier string) {
 			return
 		}
 		r.Violate("C17/entry-from-truncated-input", api, "input cut at byte %d inside entry %d: nil error and %d entries", pos, m, len(got))
+	case kind == "eio-not-hit":
+		if err != nil {
+			r.Violate("C17/error-on-wellformed", api+"/fault-not-hit", "complete file, no call failed, but: %v", err)
+			return
+		}
+		if len(got) != n {
+			r.Violate("C17/entry-count", api+"/fault-not-hit", "got %d entries, want %d", len(got), n)
+		}
+		for i := 0; i < len(got) && i < n; i++ {
+			clCompare(r, api, &got[i], entries[i], i)
+		}
 	case kind == "eio":
 		if err == nil {
 			r.Violate("C17/io-error-swallowed", api, "stream failed with EIO at byte %d but the parser returned nil error and %d entries", pos, len(got))
@@ -455,6 +538,61 @@ func runC17(r *rt.Run, tier string) {
 			r.Violate("C17/silently-shortened", api+"/"+kind, "entry %d %s: nil error and %d of %d entries", malEntry, kind, len(got), n)
 		}
 	}
+}
+
+// c17One judges ParseFileOne: the first entry of the file, or an error.
+func c17One(r *rt.Run, entries []*clEntry, doc []byte, kind string, pos int, got []changelog.ChangelogEntry, err error, task *rt.Task) {
+	api := "ParseFileOne"
+	if task.Panic != nil {
+		r.Violate("C17/panic", api, "panic: %v\n%s", task.Panic, trimStack(task.PanicStack))
+		return
+	}
+	if task.Budget {
+		r.Violate("C17/no-termination", api, "step budget exhausted")
+		return
+	}
+	e0 := entries[0]
+	firstComplete := true // the first entry is in the file up to and including its trailer
+	switch {
+	case kind == "truncate":
+		firstComplete = pos >= e0.trailerEnd
+		if strings.TrimSpace(string(doc[:pos])) == "" {
+			// an empty file has no first entry: only an error makes sense
+			if err == nil {
+				r.Violate("C17/entry-from-truncated-input", api+"/empty", "file with no entry: nil error and an entry")
+			}
+			return
+		}
+	case strings.HasPrefix(kind, "malformed"):
+		if err != nil {
+			return
+		}
+		// the malformed entry may be a later one; if an entry comes back it must be the first
+		if len(got) == 1 && got[0].Source == e0.Source {
+			return
+		}
+		r.Violate("C17/entry-mismatch", api+"/"+kind, "returned entry is not the first entry of the file")
+		return
+	case kind == "eio":
+		if err == nil {
+			r.Violate("C17/io-error-swallowed", api, "an open/read call of the parser failed with EIO but ParseFileOne returned nil error")
+		}
+		return
+	}
+	if !firstComplete {
+		if err == nil {
+			r.Violate("C17/entry-from-truncated-input", api, "file cut at byte %d inside its first entry: nil error and an entry", pos)
+		}
+		return
+	}
+	noNL := e0.nlEnd == e0.trailerEnd || (kind == "truncate" && pos < e0.nlEnd)
+	if err != nil {
+		if !noNL {
+			r.Violate("C17/error-on-wellformed", api, "first entry complete but: %v", err)
+		}
+		return
+	}
+	clCompare(r, api, &got[0], e0, 0)
 }
 
 // c17Concurrent: an input that ends inside an entry is parsed first (whatever
@@ -508,15 +646,15 @@ func c17Concurrent(r *rt.Run, tier string) {
 
 func init() {
 	register(&Prop{
-		ID: "C17", Level: "fault_enumeration", Variant: "N", Design: "DESIGN.md §5 C17",
-		Rule: "Each run draws a changelog from an entry-list model (1..8 entries, options, distributions, body shapes, blank-line runs, final newline or not), a delivery profile for the simulated stream and, in the fault-injecting half, one fault: EOF at byte k (truncation), EIO at byte k, or a malformed header/trailer/date. The thorough tier executes every fault position of every sampled changelog.",
+		ID: "C17", Level: "fault_enumeration", Variant: "I", Design: "DESIGN.md §5 C17",
+		Rule: "Each run draws a changelog from an entry-list model (1..8 entries, options, distributions, body shapes, blank-line runs, final newline or not), a delivery profile for the simulated stream and, in the fault-injecting half, one fault: EOF at byte k (truncation), EIO at byte k, or a malformed header/trailer/date. A seventh of the runs go through changelog.ParseFile / ParseFileOne on the simulated file system (torn file; failing open or read call; every opened file closed again). The thorough tier executes every fault position of every sampled changelog.",
 		Run:  runC17, Sweep: true, SweepQuick: 16,
 		QuickRuns: 300000, QuickSecs: 25, ThoroughRuns: 6000, ThoroughSecs: 600,
 		Components: map[string]interface{}{
-			"real": []string{"pault.ag/go/debian/changelog (Parse, ParseOne)", "pault.ag/go/debian/version (Parse, String)", "bufio, time (stdlib)"},
-			"stub": []string{"simio.Reader (the stream: delivery schedule, EOF placement, EIO)"},
+			"real_instrumented": []string{"pault.ag/go/debian/changelog (Parse, ParseOne, ParseFile, ParseFileOne)", "pault.ag/go/debian/version (Parse, String)", "bufio, time (stdlib)"},
+			"stub": []string{"simio.Reader (the stream: delivery schedule, EOF placement, EIO)", "verifsim/simos (the file entry points: torn file, failing open/read call)"},
 		},
 		Assumptions: []string{"reference renderer and entry model written from deb-changelog(5), independent of the library", "time.Time comparison trusts the Go standard library"},
 	})
-	propProbes["C17"] = []string{"ParseOne-on-a-small-bufio-reader", "concurrent-parses-after-a-truncated-one", "change-line-longer-than-4096-bytes", "change-line-with-carriage-return", "no-final-newline", "truncate-on-entry-boundary", "truncate-inside-entry", "truncate-only-final-newline-missing"}
+	propProbes["C17"] = []string{"via-file-entry-point", "file-call-failed:open", "file-call-failed:read", "ParseOne-on-a-small-bufio-reader", "concurrent-parses-after-a-truncated-one", "change-line-longer-than-4096-bytes", "change-line-with-carriage-return", "no-final-newline", "truncate-on-entry-boundary", "truncate-inside-entry", "truncate-only-final-newline-missing"}
 }
